@@ -78,7 +78,15 @@ def plan_blockwise_with_dask_labels(case, clause, detail):
     return bool(bad) and all(o["method"] == "blockwise" for o in bad) and clause == "plan:clean"
 
 
+def datetime_firstlast_nan_fill(case, clause, detail):
+    """first/last/nanfirst/nanlast of datetime64/timedelta64 data with fill_value=NaN: numpy refuses to promote
+    datetime with a float NaN (DTypePromotionError, a TypeError) instead of the result holding NaT"""
+    return (case.get("indtype") in ("M8", "m8") and case.get("func") in ("first", "last", "nanfirst", "nanlast")
+            and case.get("fill") == "nan" and clause == "exception:DTypePromotionError")
+
+
 MATCHERS = {
+    "datetime_firstlast_nan_fill": datetime_firstlast_nan_fill,
     "plan_blockwise_with_dask_labels": plan_blockwise_with_dask_labels,
     "min_count_zero_nanminmax_allnan": min_count_zero_nanminmax_allnan,
     "explicit_min_count_zero_absent_label": explicit_min_count_zero_absent_label,
